@@ -166,7 +166,6 @@ theorem decodeTextField_safe (env : Env) (bit : Nat) (f : FieldCfg) (raw : Bytes
   split
   · exact safe_dataError
   · rename_i text _
-    simp only
     by_cases hs : f.proc = .pds ∨ f.proc = .de43
     · have hstr : f.pytype = .str := hf.2 (Or.inr hs)
       rw [stringToPyType_str env f _ hstr]
